@@ -154,4 +154,90 @@ Section Pop.
         end
     | _ => Err OutOfTape
     end.
+
+  (* ---------- GeneticAlgorithmOptimizer.iterate ----------
+     like the evolution strategy up to the branch; the crossover branch serves positions from a queue (offspring_l) that
+     _crossover refills when empty: fittest half of the sorted population (`news` lists pos_new in sorted order), with
+     probability 0.01 one of them replaced by a random member of the other half, n_parents of them sampled, `offspring` children by
+     discrete recombination, each passed through the constraint loop.  Result: position, tape, constraint evaluations, new queue *)
+  Fixpoint read_distinct (k : nat) (hi : Z) (seen : list Z) (t : tape) : res (list Z * tape) :=
+    match k with
+    | O => Ok ([], t)
+    | S k' => match t with
+              | DZ z :: t' => if (0 <=? z) && (z <? hi) && negb (existsb (Z.eqb z) seen)
+                              then do r <- read_distinct k' hi (z :: seen) t'; Ok (z :: fst r, snd r)
+                              else Err BadOracle
+              | _ => Err OutOfTape
+              end
+    end.
+
+  Fixpoint replace_nth {A} (l : list A) (i : nat) (x : A) : list A :=
+    match l, i with
+    | [], _ => []
+    | _ :: tl, O => x :: tl
+    | y :: tl, S i' => y :: replace_nth tl i' x
+    end.
+
+  Fixpoint make_offspring (k : nat) (parents : list pos) (t : tape) (c : Z) : res (list pos * tape * Z) :=
+    match k with
+    | O => Ok ([], t, c)
+    | S k' => do ct <- recombine parents t;
+              do r <- constraint_loop fuel (fst ct) (snd ct) c; let '(q, t1, c1) := r in
+              do rest <- make_offspring k' parents t1 c1; let '(qs, t2, c2) := rest in
+              Ok (q :: qs, t2, c2)
+    end.
+
+  Definition ga_crossover (n_parents : Z) (n_offspring : nat) (news : list pos) (t : tape) : res (list pos * tape * Z) :=
+    let P := zlen news in
+    let nf := Z.to_nat (P / 2) in                      (* int(len * 0.5) *)
+    let best := firstn nf news in
+    let worst := skipn nf news in
+    match t with
+    | DF rm re :: t1 =>
+        do bt <- (if negb (dyadic_gt rm re 5764607523034235 (-59))      (* 0.01 >= random.random(); 0.01 = 5764607523034235 * 2^-59 *)
+                  then match t1 with
+                       | DZ j :: DZ i :: t2 =>       (* best_l[randint(...)] = random.choice(worst_l): the right-hand side is evaluated first *)
+                           if negb ((0 <=? i) && (i <? zlen best)) then Err ValueError else
+                           do w <- nth_nowrap worst j; Ok (replace_nth best (Z.to_nat i) w, t2)
+                       | _ => Err OutOfTape
+                       end
+                  else Ok (best, t1));
+        let '(best1, t3) := bt in
+        if zlen best1 <? n_parents then Err ValueError else     (* random.sample: sample larger than population (finding F-D9a) *)
+        do it <- read_distinct (Z.to_nat n_parents) (zlen best1) [] t3;
+        do parents <- map_res (nth_nowrap best1) (fst it);
+        make_offspring n_offspring parents (snd it) 0
+    | _ => Err OutOfTape
+    end.
+
+  Definition ga_iterate (mut : Z * Z) (n_parents : Z) (n_offspring : nat) (news : list pos) (queue : list pos) (t : tape)
+    : res (pos * tape * Z * list pos) :=
+    let P := zlen news in
+    if P =? 1 then do r <- hill_iterate t; Ok (r, queue) else
+    match t with
+    | DZ r :: DF um ue :: t1 =>
+        if negb ((0 <=? r) && (r <? P)) then Err BadOracle else
+        if dyadic_le um ue (fst mut) (snd mut) then do x <- hill_iterate t1; Ok (x, queue) else
+        match queue with
+        | q :: rest => Ok (q, t1, 0, rest)
+        | [] => do r <- ga_crossover n_parents n_offspring news t1; let '(qs, t2, c) := r in
+                match qs with q :: rest => Ok (q, t2, c, rest) | [] => Err IndexError end
+        end
+    | _ => Err OutOfTape
+    end.
+
+  (* ---------- PatternSearch.iterate ----------
+     random_iteration( pop the head of pattern_pos_l; feasible -> return it, else move_climb ).  The pattern list is refilled by
+     evaluate / finish_initialization (generate_pattern); an empty list is Python's IndexError (finding F-D12e of C15).
+     Result: position, tape, constraint evaluations, remaining list (a random restart does not pop) *)
+  Definition pattern_iterate (queue : list pos) (t : tape) : res (pos * tape * Z * list pos) :=
+    match t with
+    | DF um ue :: t' =>
+        if dyadic_gt (fst rrp) (snd rrp) um ue then do r <- move_random sp cons fuel t' 0; Ok (r, queue)
+        else match queue with
+             | [] => Err IndexError
+             | q :: rest => do r <- or_climb q t' 0; Ok (r, rest)
+             end
+    | _ => Err OutOfTape
+    end.
 End Pop.
